@@ -2,11 +2,13 @@ package logbuf
 
 import (
 	"fmt"
+	"math"
 	"net/http/httptest"
 	"os"
 	"runtime"
 	"strings"
 	"sync"
+	"sync/atomic"
 	"testing"
 	"time"
 
@@ -37,7 +39,7 @@ func window(stored []string, off, lim int) []string {
 	}
 	start := n - off
 	end := n
-	if lim >= 1 && start+lim < n {
+	if lim >= 1 && lim < n-start { // not start+lim < n: the sum overflows for limits near MaxInt
 		end = start + lim
 	}
 	return stored[start:end]
@@ -228,7 +230,14 @@ func genModel(t *rapid.T) ModelCase {
 			if hi > c.Size+110 {
 				hi = c.Size + 110
 			}
-			c.Ops = append(c.Ops, Op{Kind: "r", Off: pbt.Range(t, -2, hi), Lim: pbt.Range(t, -2, hi)})
+			op := Op{Kind: "r", Off: pbt.Range(t, -2, hi), Lim: pbt.Range(t, -2, hi)}
+			if pbt.Pct(t, 12) {
+				op.Off = pbt.Pick(t, extremeInts)
+			}
+			if pbt.Pct(t, 12) {
+				op.Lim = pbt.Pick(t, extremeInts)
+			}
+			c.Ops = append(c.Ops, op)
 		case "sub":
 			nextID++
 			c.Ops = append(c.Ops, Op{Kind: "sub", ID: nextID, Tail: pbt.Pick(t, []int{0, 1, 2, 5, 50, 1000, -1})})
@@ -278,11 +287,32 @@ func checkWin(c WinCase) pbt.Verdict {
 	return v
 }
 
+var extremeInts = []int{math.MinInt, math.MinInt + 1, math.MinInt32 - 1, math.MinInt32, -1 << 31, math.MaxInt32, math.MaxInt32 + 1, math.MaxInt - 1, math.MaxInt}
+
 func TestC18Exhaustive(t *testing.T) {
 	pbt.Enumerate(t, pbt.Spec[WinCase]{Prop: "C18", Test: "TestC18Exhaustive", Engine: "logbuf", Check: checkWin}, func(yield func(WinCase) bool) {
 		for n := 0; n <= 12; n++ {
 			for off := -2; off <= n+2; off++ {
 				for lim := -2; lim <= n+2; lim++ {
+					if !yield(WinCase{n, off, lim}) {
+						return
+					}
+				}
+			}
+		}
+		// "whatever numbers are passed": the ends of the integer range against every small value
+		// (the REST route hands both numbers over unchecked)
+		for n := 0; n <= 6; n++ {
+			vals := append([]int{}, extremeInts...)
+			for k := -2; k <= n+2; k++ {
+				vals = append(vals, k, math.MaxInt-k, math.MinInt+k+2)
+			}
+			for _, off := range vals {
+				for _, lim := range vals {
+					small := func(x int) bool { return x >= -2 && x <= n+2 }
+					if small(off) && small(lim) {
+						continue // enumerated above
+					}
 					if !yield(WinCase{n, off, lim}) {
 						return
 					}
@@ -367,7 +397,8 @@ func TestC18Concurrent(t *testing.T) {
 // logProject serves exactly what the websocket handler needs.
 type logProject struct {
 	app.IProject
-	buf *pclog.ProcessLogBuffer
+	buf       *pclog.ProcessLogBuffer
+	slowUnsub time.Duration
 }
 
 func (p *logProject) GetLogsAndSubscribe(name string, o pclog.LogObserver) error {
@@ -378,6 +409,10 @@ func (p *logProject) GetLogsAndSubscribe(name string, o pclog.LogObserver) error
 	return nil
 }
 func (p *logProject) UnSubscribeLogger(name string, o pclog.LogObserver) error {
+	if p.slowUnsub > 0 {
+		// the runner may take its time (lock contention): the handler has left, the observer is still registered
+		time.Sleep(p.slowUnsub)
+	}
 	p.buf.UnSubscribe(o)
 	return nil
 }
@@ -388,6 +423,11 @@ type WsCase struct {
 	Tail     int    `json:"tail"`
 	Second   string `json:"second"` // behaviour of a second follower: none, reads, disconnects, stalls
 	LineSize int    `json:"line_size"`
+	// SlowUnsubMs: the runner's UnSubscribeLogger takes this long (the handler of a departed
+	// client has already returned, its observer is still registered)
+	SlowUnsubMs int `json:"slow_unsub_ms,omitempty"`
+	// PaceUs: pause of the writer between two lines (microseconds)
+	PaceUs int `json:"pace_us,omitempty"`
 }
 
 type wsMsg struct {
@@ -405,7 +445,7 @@ func checkWs(c WsCase) pbt.Verdict {
 	var v pbt.Verdict
 	kf := known.Load()
 	buf := pclog.NewLogBuffer(1000)
-	srv := httptest.NewServer(api.InitRoutes(false, api.NewPcApi(&logProject{buf: buf})))
+	srv := httptest.NewServer(api.InitRoutes(false, api.NewPcApi(&logProject{buf: buf, slowUnsub: time.Duration(c.SlowUnsubMs) * time.Millisecond})))
 	defer srv.Close()
 	pad := strings.Repeat("x", c.LineSize)
 	line := func(i int) string { return fmt.Sprintf("%d %s", i, pad) }
@@ -432,6 +472,16 @@ func checkWs(c WsCase) pbt.Verdict {
 			}()
 		case "disconnects":
 			second.UnderlyingConn().Close()
+		case "leaves":
+			// reads a little, then goes away while the process keeps writing
+			go func() {
+				for i := 0; i < c.Tail+3; i++ {
+					if _, _, err := second.ReadMessage(); err != nil {
+						break
+					}
+				}
+				second.UnderlyingConn().Close()
+			}()
 		}
 	}
 	ws, err := dial(srv, c.Tail)
@@ -449,10 +499,20 @@ func checkWs(c WsCase) pbt.Verdict {
 	time.Sleep(30 * time.Millisecond)
 	blocked := false
 	wdone := make(chan struct{})
+	var writerPanic atomic.Value
 	go func() {
 		defer close(wdone)
+		defer func() {
+			// the writer is the followed process's output handler: a panic here kills the supervisor
+			if r := recover(); r != nil {
+				writerPanic.Store(fmt.Sprint(r))
+			}
+		}()
 		for i := c.Before; i < c.Before+c.After; i++ {
 			buf.Write(line(i))
+			if c.PaceUs > 0 {
+				time.Sleep(time.Duration(c.PaceUs) * time.Microsecond)
+			}
 		}
 	}()
 	for i := c.Before; i < c.Before+c.After; i++ {
@@ -473,6 +533,10 @@ func checkWs(c WsCase) pbt.Verdict {
 		blocked = true
 	}
 	runtime.KeepAlive(second)
+	if p := writerPanic.Load(); p != nil {
+		v.Violations = append(v.Violations, fmt.Sprintf("writing a line of the followed process panicked (second follower %s): %v", c.Second, p))
+		return v
+	}
 	if blocked && c.Second == "stalls" && kf.Active("C18-stalled-ws-follower") {
 		v.Known = append(v.Known, "C18-stalled-ws-follower")
 		return v
@@ -509,8 +573,13 @@ func allLines(n int, line func(int) string) []string {
 }
 
 func genWs(t *rapid.T) WsCase {
-	return WsCase{Before: pbt.Range(t, 0, 30), After: pbt.Range(t, 0, 120), Tail: pbt.Pick(t, []int{0, 1, 5, 100}),
-		Second: pbt.Pick(t, []string{"none", "reads", "disconnects", "none"}), LineSize: pbt.Pick(t, []int{1, 100, 4000})}
+	c := WsCase{Before: pbt.Range(t, 0, 30), After: pbt.Range(t, 0, 120), Tail: pbt.Pick(t, []int{0, 1, 5, 100}),
+		Second: pbt.Pick(t, []string{"none", "reads", "disconnects", "leaves", "leaves"}), LineSize: pbt.Pick(t, []int{1, 100, 4000})}
+	if (c.Second == "leaves" || c.Second == "disconnects") && pbt.Pct(t, 40) {
+		c.SlowUnsubMs = pbt.Pick(t, []int{5, 40})
+	}
+	c.PaceUs = pbt.Pick(t, []int{0, 0, 300, 1500})
+	return c
 }
 
 func TestC18Websocket(t *testing.T) {
